@@ -382,12 +382,22 @@ TypeKnown(t) ==
   \/ (Kind(t) = "seq" /\ TypeKnown(t[3]))
   \/ (Kind(t) = "asg" /\ t[2] = "=" /\ TypeKnown(t[4]))
   \/ (Kind(t) = "cond" /\ TypeKnown(t[3]) /\ TypeKnown(t[4]))
+(* KnownB: the truthiness / nullishness of the value is statically known although its type need not be: *)
+(* `y || class{}` is truthy whatever y is, so `(y || class{}) || z` may lose its dead operand.             *)
+RECURSIVE KnownB(_)
+KnownB(t) ==
+  \/ TypeKnown(t)
+  \/ (Kind(t) = "bin" /\ t[2] \in {"??", "||", "&&"} /\ KnownB(t[4]))
+  \/ (Kind(t) = "seq" /\ KnownB(t[3]))
+  \/ (Kind(t) = "asg" /\ t[2] = "=" /\ KnownB(t[4]))
+  \/ (Kind(t) = "asg" /\ t[2] \notin {"=", "&&=", "||=", "??="})      \* `a += b` is a number, string or bigint: never nullish
+  \/ (Kind(t) = "cond" /\ KnownB(t[3]) /\ KnownB(t[4]))
 RECURSIVE Foldable(_)
 Foldable(t) ==
-  \/ (Kind(t) = "bin" /\ t[2] \in {"??", "||", "&&"} /\ TypeKnown(t[3]))
+  \/ (Kind(t) = "bin" /\ t[2] \in {"??", "||", "&&"} /\ KnownB(t[3]))
   \/ (Kind(t) = "bin" /\ t[2] \notin {"??", "||", "&&"} /\ TypeKnown(t[3]) /\ TypeKnown(t[4]))
-  \/ (Kind(t) = "cond" /\ TypeKnown(t[2]))
-  \/ (Kind(t) = "un" /\ TypeKnown(t[3]))
+  \/ (Kind(t) = "cond" /\ KnownB(t[2]))
+  \/ (Kind(t) = "un" /\ KnownB(t[3]))
   \/ \E i \in 1..Len(Kids(t)) : Foldable(Kids(t)[i])
 
 (***************************************************************************)
